@@ -205,3 +205,14 @@ func InitPkg(path string) {}
 // SetClock / AdvanceClock drive the executor's stub clock (no native effect).
 func SetClock(ns int64)     {}
 func AdvanceClock(ns int64) {}
+
+// Dyadic returns an arbitrary float64 of the form n / 2^fracBits with
+// |value| <= maxAbs. Sums of a few such values are exact in binary64, so the
+// executor's real arithmetic and IEEE arithmetic coincide.
+func Dyadic(name string, fracBits int, maxAbs int64) float64 {
+	v := nextVar(name)
+	if v == nil {
+		return 0
+	}
+	return float64(v.Int64()) / float64(int64(1)<<uint(fracBits))
+}
